@@ -12,7 +12,7 @@ import json
 import random
 import subprocess
 
-from . import core, ptrace, ucore, universe
+from . import core, ignoreuni, ptrace, ucore, universe
 from .core import Scratch, ToolError, Verdict, log
 
 DIAG_VECTORS = {
@@ -132,6 +132,19 @@ def run(tier, seed, replay=None):
             except subprocess.TimeoutExpired:
                 recs[idx]["exit"] = -1
         fails, ostates = core.eval_report("TermObs", "TermObs.cfg", recs, scratch=sc, chunk=30000)
+        # no pattern list, wherever its configuration file lives, makes the run die (IgnoreSet.tla)
+        (sc / "ign").mkdir()
+        irecs, iruns = ignoreuni.observe(sc / "ign")
+        ifails, istates = ignoreuni.evaluate(irecs, sc)
+        seen_runs = set()
+        for idx, f in ifails:
+            r = irecs[idx]
+            rk = r["_key"].rsplit(":", 1)[0]
+            if "NoDeath" in f["fails"] and rk not in seen_runs:
+                seen_runs.add(rk)
+                v.violation(f"ignore-died:{rk}",
+                            f"rustfmt --check -l with the ignore list at {rk} ends with status "
+                            f"{r['_exit']}", {"stderr": r["_stderr"], "key": rk})
         # a sample of mutants through the binary with the hook trace
         sample = [j for j in jobs if "mutate" in j][:: (40 if tier == "quick" else 8)]
         tobs = []
@@ -193,7 +206,8 @@ def run(tier, seed, replay=None):
                    "rustfmt rejects or reports a parse error for",
            "outcomes": oc_count, "mutants": len([j for j in jobs if "mutate" in j]),
            "binary_traces": len(sample), "traces_validated_against_impl": t_ok,
-           "obs_states": ostates + tstates, "samples": v.samples}
+           "ignore_runs": iruns,
+           "obs_states": ostates + tstates + istates, "samples": v.samples}
     cov.update(suite_cov)
     return v.finish("exploration", cov, [
         "in-process: a panic reaching the driver's catch_unwind is what would kill the binary; "
